@@ -70,6 +70,7 @@ type World struct {
 	GenPath  string
 	Consts   map[string]string
 	AllFns   map[string]*ssa.Function // every function of the package by key
+	scanned  int
 }
 
 func sanitize(s string) string {
